@@ -46,15 +46,36 @@ def _special():
 def _class():
     base = st.builds(lambda c, a, v: {"c": c, "acc": a, "virt": v}, st.integers(0, 20), st.sampled_from([0, 0, 0, 1, 2]), st.sampled_from([False, False, True]))
     member = st.builds(lambda k, c: {"k": k, "c": c}, st.sampled_from(MEMBERS), st.integers(0, 20))
-    vfunc = st.builds(lambda k, n: {"k": k, "n": n}, st.sampled_from(["virtual", "pure", "override", "override", "final", "plain"]), st.integers(0, 20))
-    return st.builds(lambda kw, fin, bases, d, c, m, o, dt, dv, members, vf: {"kw": kw, "final": fin, "bases": bases, "dctor": d, "cctor": c, "mctor": m,
-                                                                             "octor": o, "dtor": dt, "dvirt": dv, "members": members, "vf": vf},
+    vfunc = st.builds(lambda k, n: {"k": k, "n": n}, st.sampled_from(["virtual", "pure", "override", "override", "override_ne", "final", "plain"]), st.integers(0, 20))
+    return st.builds(lambda kw, fin, bases, d, c, m, o, dt, dv, members, vf, dpure, noacc: {
+        "kw": kw, "final": fin, "bases": bases, "dctor": d, "cctor": c, "mctor": m, "octor": o, "dtor": dt, "dvirt": dv, "members": members, "vf": vf,
+        "dpure": dpure, "noacc": noacc},
                      st.integers(0, 1), st.sampled_from([False, False, False, True]), st.lists(base, max_size=2), _special(), _special(),
-                     st.sampled_from([0, 0, 0, 1, 3]), st.booleans(), _special(), st.booleans(), st.lists(member, max_size=3), st.lists(vfunc, max_size=3))
+                     st.sampled_from([0, 0, 0, 1, 3]), st.booleans(), _special(), st.booleans(), st.lists(member, max_size=3), st.lists(vfunc, max_size=3),
+                     st.sampled_from([False, False, False, True]), st.sampled_from([False, False, True]))
+
+
+def _plain(bases):
+    none = {"form": 0, "acc": 0}
+    return {"kw": 1, "final": False, "bases": bases, "dctor": dict(none), "cctor": dict(none), "mctor": 0, "octor": False, "dtor": dict(none), "dvirt": False,
+            "members": [], "vf": []}
+
+
+def _with_vchain(cs, pick, acc):
+    """appends, over one of the generated classes V: M : virtual V {}; D : M {}; L, R : virtual V {}; DD : L, R {} -- classes that
+    declare nothing themselves, so that everything they are comes from the (possibly indirect) virtual base"""
+    v = pick % len(cs)
+    n = len(cs)
+    vb = {"c": v, "acc": acc, "virt": True}
+    return cs + [_plain([vb]), _plain([{"c": n, "acc": 0, "virt": False}]), _plain([dict(vb)]), _plain([dict(vb, acc=0)]),
+                 _plain([{"c": n + 2, "acc": 0, "virt": False}, {"c": n + 3, "acc": 0, "virt": False}])]
 
 
 def _strategy(ctx):
-    return st.builds(lambda cs: {"classes": cs}, st.lists(_class(), min_size=1, max_size=ctx.pick(8, 12)))
+    plain = st.builds(lambda cs: {"classes": cs}, st.lists(_class(), min_size=1, max_size=ctx.pick(8, 12)))
+    chained = st.builds(lambda cs, pick, acc: {"classes": _with_vchain(cs, pick, acc)}, st.lists(_class(), min_size=1, max_size=ctx.pick(6, 10)),
+                        st.integers(0, 20), st.sampled_from([0, 0, 1, 2]))
+    return st.one_of(plain, plain, chained)
 
 
 def render(case, off=frozenset()):
@@ -73,15 +94,26 @@ def render(case, off=frozenset()):
             if bi in seen or info[bi]["final"]:
                 continue
             if info[bi]["has_vbase"]:
-                if "base.indirect_virtual" in off:
+                if info[bi]["vb_transparent"]:
+                    # the intermediate classes declare nothing of their own, so their implicit members already reflect the virtual
+                    # base: the known finding (indirect virtual bases are not looked at directly) cannot show here
+                    f.add("base.indirect_virtual.transparent")
+                elif "base.indirect_virtual" in off:
                     continue
-                f.add("base.indirect_virtual")
+                else:
+                    f.add("base.indirect_virtual")
             seen.add(bi)
-            bases.append((bi, ACC[b["acc"]], b["virt"]))
-            f.add("base." + ACC[b["acc"]] + (".virtual" if b["virt"] else ""))
+            acc = ACC[b["acc"]]
+            spelled = True
+            if c.get("noacc") and acc == ["private", "public"][c["kw"]] and len(bases) % 2 == 0:
+                spelled = False         # the default access of the class key, not written out ('struct D : virtual B')
+                f.add("base.default_access")
+            bases.append((bi, acc, b["virt"], spelled))
+            f.add("base." + acc + (".virtual" if b["virt"] else ""))
         head = "%s %s%s" % (["class", "struct"][c["kw"]], name, " final" if c["final"] else "")
         if bases:
-            head += " : " + ", ".join(("virtual " if v else "") + a + " K%d" % bi for bi, a, v in bases)
+            head += " : " + ", ".join(("virtual " if v else "") + (a + " " if sp_ else "") + "K%d" % bi for bi, a, v, sp_ in bases)
+        bases = [(bi, a, v) for bi, a, v, sp_ in bases]
         body = []
         cur = [None]
 
@@ -90,6 +122,7 @@ def render(case, off=frozenset()):
                 body.append("%s:" % acc)
                 cur[0] = acc
         d, cc, dt = c["dctor"], c["cctor"], c["dtor"]
+        own_pure_dtor = False
         if FORMS[d["form"]] != "none":
             sec(ACC[d["acc"]])
             body.append("  %s()%s;" % (name, {"user": "", "default": " = default", "delete": " = delete"}[FORMS[d["form"]]]))
@@ -112,8 +145,11 @@ def render(case, off=frozenset()):
             if form == "delete" and "virt.deleted_dtor" in off and any(info[bi]["poly"] for bi, a, v in bases):
                 form = "user"       # a deleted destructor overriding a virtual one is a deleted virtual function (known finding)
             dvirt = c["dvirt"] and not (form == "delete" and "virt.deleted_dtor" in off)
-            body.append("  %s~%s()%s;" % ("virtual " if dvirt else "", name, {"user": "", "default": " = default", "delete": " = delete"}[form]))
+            own_pure_dtor = bool(c.get("dpure") and dvirt and form == "user")
+            body.append("  %s~%s()%s;" % ("virtual " if dvirt else "", name, " = 0" if own_pure_dtor else {"user": "", "default": " = default", "delete": " = delete"}[form]))
             f.add("dtor.%s.%s%s" % (form, ACC[dt["acc"]], ".virtual" if dvirt else ""))
+            if own_pure_dtor:
+                f.add("dtor.pure")
             if dvirt and form == "delete":
                 f.add("virt.deleted_dtor")
         pures = []        # pure virtual names visible from bases (for overrides)
@@ -124,13 +160,13 @@ def render(case, off=frozenset()):
         for vf in c["vf"]:
             k = vf["k"]
             sec("public")
-            if k == "override" and pures:
+            if k in ("override", "override_ne") and pures:
                 nm = pures[vf["n"] % len(pures)]
                 if nm in declared:
                     continue
                 declared.add(nm)
-                body.append("  int %s() override;" % nm)
-                f.add("virt.override")
+                body.append("  int %s() %soverride;" % (nm, "noexcept " if k == "override_ne" else ""))
+                f.add("virt.override" + (".noexcept" if k == "override_ne" else ""))
             elif k == "pure":
                 nm = "vf%d_%d" % (i, vf["n"] % 3)
                 if nm in declared:
@@ -185,8 +221,12 @@ def render(case, off=frozenset()):
             f.add("member." + k)
         overridden = {nm for nm in declared}
         remaining = [p for p in pures if p not in overridden]
-        info.append({"final": c["final"], "pure_names": sorted(set(remaining + my_pure)), "abstract_decl": bool(remaining or my_pure),
+        info.append({"final": c["final"], "pure_names": sorted(set(remaining + my_pure)), "abstract_decl": bool(remaining or my_pure or own_pure_dtor),
                      "has_vbase": any(v or info[bi]["has_vbase"] for bi, a, v in bases),
+                     "vb_transparent": (any(v or info[bi]["has_vbase"] for bi, a, v in bases)
+                                        and FORMS[d["form"]] == "none" and FORMS[cc["form"]] == "none" and FORMS[c["mctor"]] == "none" and not c["octor"]
+                                        and FORMS[dt["form"]] == "none" and not c["dvirt"] and not declared and not my_pure
+                                        and all(info[bi]["vb_transparent"] for bi, a, v in bases if info[bi]["has_vbase"])),
                      "poly": bool(c["dvirt"] or any(x.startswith("virt.") for x in f) or any(info[bi]["poly"] for bi, a, v in bases))})
         lines.append(head + " {")
         lines += body
@@ -286,7 +326,7 @@ def judge(case, ctx):
                            ("copy", "copy-constructible")):
             if key in g.get("disagree", ()) or (key == "dflt" and "sdflt" in g.get("disagree", ())) or (key == "copy" and "scopy" in g.get("disagree", ())):
                 continue      # the two reference compilers disagree: not decided
-            if key in ("destr", "dflt", "copy") and g["abstract"] and any(x.endswith(".virtual") and x.startswith("base.") for x in f):
+            if key in ("destr", "dflt", "copy") and g["abstract"] and any((x.endswith(".virtual") and x.startswith("base.")) or x.startswith("base.indirect_virtual") for x in f):
                 continue      # CWG 1658: an abstract class does not construct/destroy its virtual bases -- corner not judged
             if key == "dflt" and g["dflt"] != g["sdflt"]:
                 continue      # new T() and std::is_default_constructible differ (inaccessible destructor): not decided
@@ -308,7 +348,7 @@ def judge(case, ctx):
                 return Outcome(ok=False, key="export:ctor-of-abstract", classes=classes, detail="%s is abstract but %d constructor wrapper(s) are exported\n%s" % (n, len(ctor_ws), header))
             if g["dflt"] != g["sdflt"] or g["copy"] != g["scopy"] or g.get("disagree"):
                 continue
-            if g["abstract"] and any(x.endswith(".virtual") and x.startswith("base.") for x in f):
+            if g["abstract"] and any((x.endswith(".virtual") and x.startswith("base.")) or x.startswith("base.indirect_virtual") for x in f):
                 continue
             if has_default != bool(g["dflt"]):
                 return Outcome(ok=False, key="export:default-ctor:%d" % g["dflt"], classes=classes,
